@@ -61,6 +61,10 @@ func main() {
 			fmt.Println(len(cx.Findings), "candidates")
 			return
 		}
+		if *xref == "same-args" {
+			xrefSameArgs(p)
+			return
+		}
 		xrefUsedAfterError(p, strings.Split(*xref, ","))
 		return
 	}
